@@ -140,6 +140,7 @@ def run(plan: dict[str, Any]) -> dict[str, Any]:
         if bool(ps["ctrl1"] & 0x80) == long_frame:
             R.violate("C19.conformance", "frame-type-flag", f"NPDU {len(ps['tpdu']) - 1} octets, Ctrl1 {ps['ctrl1']:02x}")
     # ---- the public primitive over a wider input space
+    prev_in = (0, 0, 0)
     for j in range(10):
         algo = rng.choice([0, 1])
         scf = (algo << 4) | rng.choice([0, 0, 0, 0x80, 0x08, 0x02, 0x03])
@@ -149,6 +150,14 @@ def run(plan: dict[str, Any]) -> dict[str, Any]:
         ext = rng.choice([0, 0, 0, 1, 4, 7, 15])
         seq = rng.randrange(0, 2 ** 48)
         src, dst = rng.randrange(0x10000), rng.randrange(0x10000)
+        # consecutive frames often share one of their inputs: the same sequence number under other addresses (two senders
+        # at the same counter value), or the same addresses under another number
+        r_ = rng.random()
+        if j and r_ < 0.35:
+            seq = prev_in[0]
+        elif j and r_ < 0.55:
+            src, dst = prev_in[1], prev_in[2]
+        prev_in = (seq, src, dst)
         tp = rng.choice([0x00, 0x04, 0x40, 0x44, 0x7C]) if not group else rng.choice([0x00, 0x04])
         try:
             tpci = TPCI.resolve(tp, dst_is_group_address=group, dst_is_zero=dst == 0)
